@@ -289,6 +289,11 @@ fn check_faults(t: &mut Tape, ctx: &Ctx) -> Outcome {
             Some(n) => match listed_of(n) {
                 None => return Outcome::fail("diagnostic-names-missing-line", format!("{:?}: line {} is not in the listing", e, n), case),
                 Some(text) => {
+                    if col.is_none() && (code.contains("SYNTAX ERROR") || code.contains("UNDEFINED LINE") || code.contains("WITHOUT")) {
+                        // the message is one of the channels that carry the position (LIST's
+                        // underline is the other): a fault at the very end of the line has one too
+                        return Outcome::fail("diagnostic-without-column", format!("{:?} names line {} but no column", e, n), case);
+                    }
                     if let Some(c) = col {
                         if c == 0 || c - 1 > text.chars().count() {
                             return Outcome::fail("diagnostic-column-outside-line", format!("{:?}: column {} outside {:?} ({} characters)", e, c, text, text.chars().count()), case);
